@@ -148,7 +148,7 @@ Definition sym_kern : kern := {|
   k_eig_shift := fun A e => mkv (sv_kind e) A (sv_ok e) false false true (sv_fam e);
   k_svd_of_eig := fun e => plainv KSvd (sv_of e) (sv_ok e && is_eig e) FSvd;
   k_svd_shift := fun A u => mkv (sv_kind u) A (sv_ok u) false false true (sv_fam u);
-  k_diagz_lanczos := fun A n r => if Nat.eqb n 1 then Raise IndexError else Ok (plainv (KEig true) A true (FDiagzL r));
+  k_diagz_lanczos := fun A n r => Ok (plainv (KEig true) A true (FDiagzL r));
   k_cholop := fun c => mkv8 (KRootOp RRoot) (sv_of c) (sv_ok c && is_factor c RRoot) (sv_tri c) (sv_upper c) (sv_tri_ok c) (sv_fam c) (sv_inst c);
   k_root_eig := fun e => plainv (KRootOp RRoot) (sv_of e) (sv_ok e && is_eig e) (sv_fam e);
   k_root_svd := fun u => plainv (KRootOp RRoot) (sv_of u) (sv_ok u && is_kind u KSvd) (sv_fam u);
